@@ -93,6 +93,9 @@ type gen struct {
 	n                                int // ops generated
 	toks, orgs, teams, roles, mperms []int64
 	log                              []Op
+	// membership focus (swarm): this run is mostly about tokens joining and
+	// leaving teams and teams/organisations being deleted under them
+	memberFocus bool
 }
 
 func mustJ(v any) json.RawMessage {
@@ -308,6 +311,9 @@ func (g *gen) fields(all ...string) []string {
 
 func (g *gen) tokenOp() {
 	c := g.r.Intn(100)
+	if g.memberFocus && len(g.toks) < 3 {
+		c = g.r.Intn(35) // create
+	}
 	if len(g.toks) == 0 && c >= 35 && g.r.Chance(70) {
 		c = 0
 	}
@@ -352,6 +358,9 @@ func (g *gen) tokenOp() {
 
 func (g *gen) rbacOp() {
 	c := g.r.Intn(13)
+	if g.memberFocus {
+		c = []int{0, 3, 3, 5, 5, 2, 11, 11, 11, 11, 11, 12, 12, 12, 6, g.r.Intn(13)}[g.r.Intn(16)]
+	}
 	// build hierarchies in short logs: a child create without any known parent usually becomes a parent create
 	need := func(l []int64, parentKind int) {
 		if len(l) == 0 && g.r.Chance(75) {
@@ -465,6 +474,10 @@ func genPlan(prop string) func(r *simrt.Rand, tier string) any {
 			if r.Chance(50) {
 				wBad = 0
 			}
+		}
+		if r.Chance(15) {
+			g.memberFocus = true
+			wNode, wFile, wTok, wRBAC, wBad = 3, 2, 25, 68, 2
 		}
 		tot := wNode + wFile + wTok + wRBAC + wBad
 		for g.n = 0; g.n < n; g.n++ {
